@@ -60,8 +60,9 @@ HasMac(e) == CASE e[1] \in {"num", "par", "var"} -> FALSE
                [] OTHER -> HasMac(e[2]) \/ HasMac(e[3])
 
 \* ---- rendering of expressions -------------------------------------------------------------------------
+\* (blanks inside the brackets are allowed: "x{ -1 }", "x[ +2 ]" - written so when the spacing choice is a blank)
 ShTextC(k, ch) == IF k = 0 THEN ""
-                  ELSE (IF ch.br = "curly" THEN "{" ELSE "[") \o (IF k > 0 /\ ch.plus THEN "+" ELSE "") \o ToString(k)
+                  ELSE (IF ch.br = "curly" THEN "{" ELSE "[") \o ch.sp \o (IF k > 0 /\ ch.plus THEN "+" ELSE "") \o ToString(k) \o ch.sp
                        \o (IF ch.br = "curly" THEN "}" ELSE "]")
 MacName(f, ch) == IF ch.mac = "long" THEN f
                   ELSE CASE f = "diff_log" -> "difflog" [] f = "mov_sum" -> "movsum" [] f = "mov_avg" -> "movavg"
